@@ -260,7 +260,7 @@ func (r *dRunner) runOp(op *dOp) map[string]interface{} {
 	key := string(keyb)
 	val, _ := hex.DecodeString(op.V)
 	var ki KeyInfo
-	if op.D != "" && op.Op != "destroy" && op.Op != "scan" && op.Op != "mdel" && op.Op != "stats" {
+	if op.D != "" && op.Op != "destroy" && op.Op != "scan" && op.Op != "mdel" && op.Op != "stats" && op.Op != "fragkeys" {
 		ki = r.cl.KeyInfo(op.D, key)
 	}
 	israw := strings.HasPrefix(op.C, "raw")
@@ -724,6 +724,28 @@ func (r *dRunner) runOp(op *dOp) map[string]interface{} {
 			}
 		}
 		ob["owned"] = owned
+	case "fragkeys":
+		// keys held by every primary fragment of dmap D: [[member, part, [keyhex...]], ...]
+		var out []interface{}
+		for i, m := range r.cl.Members {
+			if !m.Alive {
+				continue
+			}
+			for p := uint64(0); p < m.Cfg.PartitionCount; p++ {
+				ks := m.DB.VerifDMap().VerifFragmentKeys(partitions.PRIMARY, op.D, p)
+				if len(ks) == 0 {
+					continue
+				}
+				var l []string
+				for _, k := range ks {
+					l = append(l, hex.EncodeToString([]byte(k)))
+				}
+				sort.Strings(l)
+				out = append(out, []interface{}{i, p, l})
+			}
+		}
+		ob["r"] = "ok"
+		ob["frags"] = out
 	case "keyinfo":
 		ob["r"] = "ok"
 		ob["hkey"] = fmt.Sprint(ki.HKey)
